@@ -245,6 +245,14 @@ func (pc *pCtx) p8Frames(only string) {
 							if !ok {
 								continue
 							}
+							// the delivered value itself (or a sub-slice of it) kept in a cell: whatever that cell feeds later
+							// writes the memory the consumer was given
+							if st.Val == ssa.Value(ld) {
+								shared = fmt.Sprintf("the delivered batch is kept in a cell (%s)", pc.pos(st.Pos()))
+							}
+							if sl0, ok := st.Val.(*ssa.Slice); ok && sl0.X == ssa.Value(ld) {
+								shared = fmt.Sprintf("a sub-slice of the delivered batch is kept in a cell (%s)", pc.pos(st.Pos()))
+							}
 							sl, ok := st.Val.(*ssa.Slice)
 							if !ok {
 								continue
@@ -422,4 +430,265 @@ func inputDerivedOrCaptured(v ssa.Value, depth int) (bool, string) {
 		return inputDerivedOrCaptured(t.X, depth+1)
 	}
 	return false, ""
+}
+
+// p1Helpers: a helper function that is handed a destination (a top-level function with an Observer parameter, called from
+// operator callbacks) emits with the WithContext forms: the short forms substitute context.Background() and drop whatever
+// context the notification carried. (P1 checks the closures of the operators themselves; helpers are outside its sites.)
+func (pc *pCtx) p1Helpers(only string) {
+	var paths []string
+	for p := range pc.kc.w.ByPath {
+		if isRoPkg(p) && !strings.Contains(p, "/examples/") && !strings.HasSuffix(p, "/testing") && !strings.Contains(p, "/internal/") {
+			paths = append(paths, p)
+		}
+	}
+	sort.Strings(paths)
+	for _, p := range paths {
+		fns := pc.kc.w.allFuncs(p)
+		for _, k := range sortedKeys(fns) {
+			fn := fns[k]
+			if fn.Blocks == nil || fn.Parent() != nil || fn.Signature.Recv() != nil || strings.HasSuffix(pc.kc.w.Prog.Fset.Position(fn.Pos()).Filename, "_test.go") {
+				continue
+			}
+			hasObs := false
+			for _, prm := range fn.Params {
+				if isObserverType(prm.Type()) {
+					hasObs = true
+				}
+			}
+			if !hasObs {
+				continue
+			}
+			name := k
+			if p != roPath {
+				name = strings.TrimPrefix(p, roPath+"/") + "." + k
+			}
+			if only != "" && !strings.Contains(name, only) {
+				continue
+			}
+			emits := 0
+			short := ""
+			var at token.Pos
+			for _, f := range closureTree(fn) {
+				for _, b := range f.Blocks {
+					for _, ins := range b.Instrs {
+						call, ok := ins.(ssa.CallInstruction)
+						if !ok || !call.Common().IsInvoke() {
+							continue
+						}
+						c := call.Common()
+						m := c.Method.Name()
+						if !emitMethods[m] || !(isObserverType(c.Value.Type()) || hasMethod(c.Value.Type(), "NextWithContext")) {
+							continue
+						}
+						emits++
+						if !strings.HasSuffix(m, "WithContext") && short == "" {
+							short = fmt.Sprintf("%s drops the context (uses context.Background()) at %s", m, pc.pos(ins.Pos()))
+							at = ins.Pos()
+						}
+					}
+				}
+			}
+			if emits == 0 {
+				continue
+			}
+			props := []string{"C09"}
+			if p != roPath {
+				props = append(props, "C18")
+			}
+			pc.add(props, fmt.Sprintf("P1/%s/helper-emits-with-a-context", name),
+				"a helper that is handed a destination emits with the WithContext forms (the short forms drop the notification's context)", short == "", short, pc.pos(at))
+		}
+	}
+}
+
+// p7NoTryLock: an operator waits for its locks. A callback that tries a lock and goes away when it is busy returns to its
+// producer before the value has been handled (and drops the work it was about to do): the only place that is allowed to
+// drop on a busy lock is the subscriber's explicitly dropping mode, which is a method, not an operator.
+func (pc *pCtx) p7NoTryLock(only string) {
+	var paths []string
+	for p := range pc.kc.w.ByPath {
+		if isRoPkg(p) && !strings.Contains(p, "/examples/") && !strings.HasSuffix(p, "/testing") && !strings.Contains(p, "/internal/") {
+			paths = append(paths, p)
+		}
+	}
+	sort.Strings(paths)
+	for _, p := range paths {
+		fns := pc.kc.w.allFuncs(p)
+		for _, k := range sortedKeys(fns) {
+			fn := fns[k]
+			if fn.Blocks == nil || fn.Parent() != nil || fn.Signature.Recv() != nil || strings.HasSuffix(pc.kc.w.Prog.Fset.Position(fn.Pos()).Filename, "_test.go") {
+				continue
+			}
+			name := k
+			if p != roPath {
+				name = strings.TrimPrefix(p, roPath+"/") + "." + k
+			}
+			if only != "" && !strings.Contains(name, only) {
+				continue
+			}
+			locks := 0
+			tried := ""
+			var at token.Pos
+			for _, f := range closureTree(fn) {
+				for _, b := range f.Blocks {
+					for _, ins := range b.Instrs {
+						call, ok := ins.(ssa.CallInstruction)
+						if !ok {
+							continue
+						}
+						c := call.Common()
+						m := ""
+						if c.IsInvoke() {
+							m = c.Method.Name()
+						} else if sc := c.StaticCallee(); sc != nil && sc.Signature.Recv() != nil {
+							m = sc.Name()
+						}
+						switch m {
+						case "Lock", "RLock":
+							locks++
+						case "TryLock", "TryRLock":
+							locks++
+							if tried == "" {
+								tried = fmt.Sprintf("%s at %s", m, pc.pos(ins.Pos()))
+								at = ins.Pos()
+							}
+						}
+					}
+				}
+			}
+			if locks == 0 {
+				continue
+			}
+			pc.add([]string{"C08", "C05", "C02"}, fmt.Sprintf("P7/%s/waits-for-its-locks", name),
+				"an operator waits for the locks it takes (a callback that goes away when a lock is busy returns to its producer before the value is handled)", tried == "", tried, pc.pos(at))
+		}
+	}
+}
+
+// p3SpareCapacity: a slice with spare capacity that is made when an operator is built or applied (outside every subscribe
+// function) is one array for all subscriptions: whatever appends to it at subscription time writes memory that earlier
+// subscribers were given (`seed := make([]T, 0, 16)` handed to Reduce).
+func (pc *pCtx) p3SpareCapacity(only string) {
+	isObs := func(t types.Type) bool { return namedName(t) == "Observable" || namedName(t) == "ConnectableObservable" }
+	var paths []string
+	for p := range pc.kc.w.ByPath {
+		if isRoPkg(p) && !strings.Contains(p, "/examples/") && !strings.HasSuffix(p, "/testing") && !strings.Contains(p, "/internal/") {
+			paths = append(paths, p)
+		}
+	}
+	sort.Strings(paths)
+	for _, p := range paths {
+		fns := pc.kc.w.allFuncs(p)
+		for _, k := range sortedKeys(fns) {
+			fn := fns[k]
+			if fn.Blocks == nil || fn.Parent() != nil || fn.Signature.Recv() != nil || strings.HasSuffix(pc.kc.w.Prog.Fset.Position(fn.Pos()).Filename, "_test.go") {
+				continue
+			}
+			// an operator or a source: returns an Observable, or a function from Observable to Observable
+			res := fn.Signature.Results()
+			if res.Len() != 1 {
+				continue
+			}
+			opLike := isObs(res.At(0).Type())
+			if sig, ok := res.At(0).Type().Underlying().(*types.Signature); ok && sig.Params().Len() == 1 && sig.Results().Len() == 1 && isObs(sig.Params().At(0).Type()) && isObs(sig.Results().At(0).Type()) {
+				opLike = true
+			}
+			if !opLike {
+				continue
+			}
+			name := k
+			if p != roPath {
+				name = strings.TrimPrefix(p, roPath+"/") + "." + k
+			}
+			if only != "" && !strings.Contains(name, only) {
+				continue
+			}
+			// construction level: the function itself and the closures that map an Observable to an Observable
+			level := []*ssa.Function{fn}
+			for _, f := range fn.AnonFuncs {
+				sg := f.Signature
+				if sg.Params().Len() == 1 && sg.Results().Len() == 1 && isObs(sg.Params().At(0).Type()) && isObs(sg.Results().At(0).Type()) {
+					level = append(level, f)
+				}
+			}
+			made := 0
+			spare := ""
+			var at token.Pos
+			for _, f := range level {
+				for _, b := range f.Blocks {
+					for _, ins := range b.Instrs {
+						ms, ok := ins.(*ssa.MakeSlice)
+						if !ok {
+							continue
+						}
+						made++
+						lc, lok := ms.Len.(*ssa.Const)
+						cc, cok := ms.Cap.(*ssa.Const)
+						same := ms.Len == ms.Cap || (lok && cok && lc.Int64() == cc.Int64())
+						// it matters where the slice goes: handed to another operator (a seed), or appended to by a closure
+						// that runs per subscription; a table filled while the operator is built is read-only afterwards
+						if !same && !pc.spareEscapes(ms, level) {
+							same = true
+						}
+						if !same && spare == "" {
+							spare = fmt.Sprintf("make with a capacity beyond its length at %s", pc.pos(ins.Pos()))
+							at = ins.Pos()
+						}
+					}
+				}
+			}
+			if made == 0 {
+				continue
+			}
+			pc.add([]string{"C12"}, fmt.Sprintf("P3/%s/no-spare-capacity-made-with-the-operator", name),
+				"a slice made when the operator is built or applied (outside the subscribe function) has no spare capacity: appends at subscription time would share its array between subscriptions", spare == "", spare, pc.pos(at))
+		}
+	}
+}
+
+// spareEscapes: the made slice is passed to a function of the library (an operator constructor taking a seed), or lives
+// in a cell that a closure below the construction level appends to.
+func (pc *pCtx) spareEscapes(ms *ssa.MakeSlice, level []*ssa.Function) bool {
+	atLevel := map[*ssa.Function]bool{}
+	for _, f := range level {
+		atLevel[f] = true
+	}
+	for _, r := range *ms.Referrers() {
+		switch t := r.(type) {
+		case *ssa.Call:
+			if cf := t.Common().StaticCallee(); cf != nil && cf.Pkg != nil && isRoPkg(pkgPathOf(cf)) {
+				return true
+			}
+		case *ssa.Store:
+			al, ok := t.Addr.(*ssa.Alloc)
+			if !ok || ssa.Value(al) == t.Val {
+				continue
+			}
+			// loads of the cell inside per-subscription closures that feed append
+			for _, f := range closureTree(al.Parent()) {
+				if atLevel[f] {
+					continue
+				}
+				for _, b := range f.Blocks {
+					for _, ins := range b.Instrs {
+						call, ok := ins.(*ssa.Call)
+						if !ok {
+							continue
+						}
+						bi, ok := call.Common().Value.(*ssa.Builtin)
+						if !ok || bi.Name() != "append" || len(call.Common().Args) == 0 {
+							continue
+						}
+						if ld, ok := call.Common().Args[0].(*ssa.UnOp); ok && ld.Op == token.MUL {
+							if fv, ok := ld.X.(*ssa.FreeVar); ok && fv.Name() == al.Comment {
+								return true
+							}
+						}
+					}
+				}
+			}
+		}
+	}
+	return false
 }
